@@ -364,7 +364,21 @@ fn ev_spec() -> impl Strategy<Value = EvSpec> {
         1 => any::<u16>().prop_map(Kind::Other),
     ];
     let step = prop_oneof![3 => 1u32..1_000_000, 2 => 0x4000_0000u32..=u32::MAX, 1 => Just(0u32), 1 => any::<u32>()];
-    (kind, any::<u32>(), step, 0u8..3, (any::<u32>(), any::<u8>(), any::<u8>(), any::<u8>(), any::<u32>())).prop_map(|(kind, serial, step, flavour, counters)| EvSpec { kind, serial, step, flavour, counters })
+    (
+        kind,
+        prop_oneof![6 => any::<u32>(), 1 => Just(0u32), 1 => Just(u32::MAX), 1 => 0u32..5],
+        step,
+        0u8..3,
+        // counters: output, then increments to scaledown, drift veto and input; pulser. Zeros, equal
+        // counters and the ends of the range matter (an absent and a zero counter are different things)
+        (
+            prop_oneof![5 => any::<u32>(), 2 => Just(0u32), 1 => Just(1u32), 1 => Just(u32::MAX), 1 => Just(u32::MAX - 300), 1 => 65_530u32..65_540],
+            prop_oneof![2 => any::<u8>(), 2 => Just(0u8), 1 => Just(1u8)],
+            prop_oneof![2 => any::<u8>(), 2 => Just(0u8), 1 => Just(1u8)],
+            prop_oneof![2 => any::<u8>(), 2 => Just(0u8), 1 => Just(1u8)],
+            prop_oneof![5 => any::<u32>(), 1 => Just(0u32), 1 => Just(u32::MAX), 1 => 65_530u32..65_540],
+        ),
+    ).prop_map(|(kind, serial, step, flavour, counters)| EvSpec { kind, serial, step, flavour, counters })
 }
 
 fn file_spec() -> impl Strategy<Value = FileSpec> {
